@@ -290,7 +290,10 @@ class TagMachine:
         f = D.ifm_of(op)
         o = D.ofm_of(op)
         # ---- reads
-        for which, key in (("", "ifm"), ("2", "ifm2")):
+        # a binary elementwise operation whose FIRST operand is the broadcast one is emitted with its operands exchanged (the hardware
+        # broadcasts IFM2 only) and the operand-order bit set: the registers' IFM then holds the command's second operand
+        swapped = op.kind == "elementwise" and D.has_ifm2(op) and bool(op.r("IFM2_BROADCAST") & 0x40)
+        for which, key in ((("", "ifm2"), ("2", "ifm")) if swapped else (("", "ifm"), ("2", "ifm2"))):
             if which == "2" and not D.has_ifm2(op):
                 continue
             desc = c.get(key)
@@ -310,7 +313,7 @@ class TagMachine:
             if desc["purpose"] != "FeatureMap" or desc["mem_type"].startswith("Permanent"):
                 continue  # constant operand read straight from the constants region
             t = self.tids.get(desc)
-            if which == "" and c.get("padding_type") == "Padding.TILE" and c.get("explicit_padding") and uses_logical(desc):
+            if which == "" and not swapped and c.get("padding_type") == "Padding.TILE" and c.get("explicit_padding") and uses_logical(desc):
                 coord = tile_padded_coords(box, view, fm.height, fm.width, 0, fm.depth, fm.esize, tuple(c["explicit_padding"]))
                 self.stats["tile_padded_reads"] = self.stats.get("tile_padded_reads", 0) + 1
             else:
